@@ -146,9 +146,12 @@ class Ctx(object):
         return s
 
     def _finite_sort(self, name, n=None):
+        """A finite sort of at least n values: a bit-vector sort (every bit pattern is a value, so no exhaustiveness axiom is
+        needed - an EnumSort is a datatype, which the fast quantifier-free logics silently treat as uninterpreted)."""
         n = n or self.scope
-        s, consts = z3.EnumSort(name + self.tag + "_%d" % next(self._n), ["%s%d" % (name, i) for i in range(n)])
-        self._enum_consts[s.name()] = consts
+        bits = max(1, (n - 1).bit_length())
+        s = z3.BitVecSort(bits)
+        self._enum_consts["bv%d" % bits] = [z3.BitVecVal(i, bits) for i in range(2 ** bits)]
         return s
 
     def _mk_sort(self, ty):
@@ -164,7 +167,7 @@ class Ctx(object):
             if self.strmode == "z3":
                 return z3.StringSort()
             if self.scope is not None:
-                return self._finite_sort("Str", max(self.scope, 2) + 64)
+                return self._finite_sort("Str", 64)
             return z3.DeclareSort("Str")
         if ty is EXC:
             if self.scope is not None:
@@ -180,39 +183,52 @@ class Ctx(object):
         if isinstance(ty, Set):
             return z3.ArraySort(self.sort(ty.elem), z3.BoolSort())
         if isinstance(ty, List):
-            d = z3.Datatype("L_" + _mangle(ty.elem.key) + self.tag)
-            d.declare("mk", ("len", z3.IntSort()), ("arr", z3.ArraySort(z3.IntSort(), self.sort(ty.elem))))
-            return d.create()
+            u = "L_" + _mangle(ty.elem.key) + self.tag
+            d = z3.Datatype(u)
+            d.declare("mk_" + u, ("len_" + u, z3.IntSort()), ("arr_" + u, z3.ArraySort(z3.IntSort(), self.sort(ty.elem))))
+            return _alias(d.create(), u, mk="mk_", len="len_", arr="arr_")
         if isinstance(ty, Map):
-            d = z3.Datatype("M_" + _mangle(ty.k.key) + "_" + _mangle(ty.v.key) + self.tag)
-            d.declare("mk", ("dom", z3.ArraySort(self.sort(ty.k), z3.BoolSort())),
-                      ("val", z3.ArraySort(self.sort(ty.k), self.sort(ty.v))))
-            return d.create()
+            u = "M_" + _mangle(ty.k.key) + "_" + _mangle(ty.v.key) + self.tag
+            d = z3.Datatype(u)
+            d.declare("mk_" + u, ("dom_" + u, z3.ArraySort(self.sort(ty.k), z3.BoolSort())),
+                      ("val_" + u, z3.ArraySort(self.sort(ty.k), self.sort(ty.v))))
+            return _alias(d.create(), u, mk="mk_", dom="dom_", val="val_")
         if isinstance(ty, Opt):
-            d = z3.Datatype("O_" + _mangle(ty.elem.key) + self.tag)
-            d.declare("none")
-            d.declare("some", ("v", self.sort(ty.elem)))
-            return d.create()
+            u = "O_" + _mangle(ty.elem.key) + self.tag
+            d = z3.Datatype(u)
+            d.declare("none_" + u)
+            d.declare("some_" + u, ("v_" + u, self.sort(ty.elem)))
+            return _alias(d.create(), u, none="none_", some="some_", v="v_", is_none="is_none_", is_some="is_some_")
         if isinstance(ty, Tup):
-            d = z3.Datatype("T_" + _mangle(ty.key) + self.tag)
-            d.declare("mk", *[("f%d" % i, self.sort(e)) for i, e in enumerate(ty.elems)])
-            return d.create()
+            u = "T_" + _mangle(ty.key) + self.tag
+            d = z3.Datatype(u)
+            d.declare("mk_" + u, *[("f%d_%s" % (i, u), self.sort(e)) for i, e in enumerate(ty.elems)])
+            return _alias(d.create(), u, mk="mk_")
         raise TypeError("no sort for %r" % (ty,))
 
     def _pyval_sort(self):
         if self._pyval is None:
-            d = z3.Datatype("PyVal" + self.tag)
-            d.declare("PNone")
-            d.declare("PBool", ("b", z3.BoolSort()))
-            d.declare("PInt", ("i", z3.IntSort()))
-            d.declare("PStr", ("s", self.sort(STR)))
-            d.declare("PObj", ("o", z3.IntSort()))
-            self._pyval = d.create()
+            t = self.tag
+            d = z3.Datatype("PyVal" + t)
+            d.declare("PNone" + t)
+            d.declare("PBool" + t, ("pb" + t, z3.BoolSort()))
+            d.declare("PInt" + t, ("pi" + t, z3.IntSort()))
+            d.declare("PStr" + t, ("ps" + t, self.sort(STR)))
+            d.declare("PObj" + t, ("po" + t, z3.IntSort()))
+            P = d.create()
+            for short in ("PNone", "PBool", "PInt", "PStr", "PObj"):
+                setattr(P, short, getattr(P, short + t))
+                setattr(P, "is_" + short, getattr(P, "is_" + short + t))
+            for short, full in (("b", "pb"), ("i", "pi"), ("s", "ps"), ("o", "po")):
+                setattr(P, short, getattr(P, full + t))
+            self._pyval = P
         return self._pyval
 
     def enum_values(self, sort):
         """Constants of a finite sort (finite scope only)."""
-        return self._enum_consts.get(sort.name())
+        if z3.is_bv_sort(sort):
+            return self._enum_consts.get("bv%d" % sort.size())
+        return None
 
     # -- uninterpreted functions
     def func(self, name, *sorts):
@@ -230,7 +246,7 @@ class Ctx(object):
             if self.scope is not None:
                 consts = self.enum_values(srt)
                 idx = len(self._strlits)
-                if idx >= len(consts) - max(self.scope, 2):
+                if idx >= len(consts) - 4:
                     raise OutsideSubset("too many string literals for finite scope")
                 self._strlits[s] = consts[idx]
             else:
@@ -262,6 +278,13 @@ class Ctx(object):
 
 class OutsideSubset(Exception):
     pass
+
+
+def _alias(sort, u, **names):
+    """constructor / accessor / tester names are unique per datatype (cvc5 rejects overloading); short aliases for the encoder"""
+    for short, prefix in names.items():
+        setattr(sort, short, getattr(sort, prefix + u))
+    return sort
 
 
 def _mangle(s):
